@@ -123,7 +123,7 @@ func (w *world) runNested(key string) { w.runNestedOpts(key, false) }
 func (w *world) runNestedOpts(key string, noPublish bool) {
 	ops := w.c.Nested[key]
 	for _, op := range ops {
-		if noPublish && (op.K == "pub" || op.K == "pubctx" || op.K == "pubcancel") {
+		if noPublish && (op.K == "pub" || op.K == "pubany" || op.K == "pubctx" || op.K == "pubcancel") {
 			continue
 		}
 		if w.fuel.Add(-1) < 0 {
@@ -184,6 +184,15 @@ func (w *world) exec(op Op, nested bool) {
 	case "pub":
 		defer w.enter(clsPub)()
 		tops.Pub(bus, nil, int(w.ids.Add(1)))
+	case "pubany":
+		// through the static type any: handlers are found by the dynamic type
+		// and called through the reflective path
+		defer w.enter(clsPub)()
+		if op.N%2 == 0 {
+			tops.PubAny(bus, nil, int(w.ids.Add(1)))
+		} else {
+			tops.PubAny(bus, context.WithValue(ctx, ctxKey{}, 3), int(w.ids.Add(1)))
+		}
 	case "pubctx":
 		defer w.enter(clsPub)()
 		tops.Pub(bus, context.WithValue(ctx, ctxKey{}, 1), int(w.ids.Add(1)))
